@@ -112,6 +112,14 @@ CLAIMED['C14'] = dict(
          'the joint automaton, shortest witness on difference. Never-throws: no must/raise/try_catch rule type in the grammar, no throw in the atoms it uses. Depth > D is not decided.',
     ref='3.5, 5/C14')
 
+CLAIMED['C15'] = dict(
+    technique='automata equivalence of rule types (free continuation) + bounded abstract execution of scanners over byte classes + interval analysis per (type, maximum) + piecewise-affine modular evaluation',
+    text='Syntax: the numeral rule types are compared with the documented syntax as prefix matchers over all inputs; the hand-written scanners are explored on every byte-class string up to the '
+         'length bound (never read past the end, never consume on failure, only digits reach accumulate_digit, overflow reported as documented). Conversion: for every instantiated (type, maximum) '
+         'pair accumulate_digit is proved by interval analysis to store old*10+digit without wrap and to fail exactly when the value exceeds the maximum; the wrappers only combine these; '
+         'convert_negative yields -magnitude exactly and without undefined behaviour (defect D14 found by this check and fixed).',
+    ref='5/C15, 4.8')
+
 NOT_YET = 'check not built yet in this round (see DESIGN.md section 10 for the order of construction); no claim is made'
 
 NA_REASONS = {}
